@@ -121,3 +121,28 @@ class Deco:
 def yield_all(xs):
     for x in xs:
         yield x
+
+
+import abc  # noqa: E402
+import enum  # noqa: E402
+
+
+class Color(enum.Enum):
+    RED = 1
+    BLUE = 2
+
+
+class AbcBase(abc.ABC):
+    pass
+
+
+class AbcImpl(AbcBase):
+    pass
+
+
+class _Meta(type):
+    pass
+
+
+class WithMeta(metaclass=_Meta):
+    pass
